@@ -59,12 +59,28 @@ def gen_B(g, R, D):
             return B, dv
 
 
-PIPES = ["mul_eval", "onerank_sm", "marg_cond", "joint", "post", "lik", "moments", "info", "logcond_y"]
+PIPES = ["mul_eval", "onerank_sm", "marg_cond", "joint", "post", "lik", "moments", "info", "logcond_y", "trunc"]
 OBJS = ["general", "onerank", "linear", "constant", "measure", "measure_cached", "diagmeasure", "pdf", "diagpdf",
         "cond_full", "cond_diag", "cond_ident", "cond_identdiag"]
 
 
+def gen_trunc(g, mode=None):
+    """1-D truncated measure: one-sided (lower / upper) and two-sided limits; all integrals; gradients w.r.t. the
+    precision, information vector, log-constant and the finite limits"""
+    R = g.randint(1, 2)
+    mode = mode or g.choice(["lower", "upper", "both"])
+    d = dict(scn="pipe", pipe="trunc", R=R, D=1, mode=mode, lam=[[[g.qpos()]] for _ in range(R)], nu=g.mat(R, 1), lb=g.vec(R))
+    lo = [[Fr(g.randint(-4, 2), 2)] for _ in range(R)]
+    if mode in ("lower", "both"):
+        d["lo"] = lo
+    if mode in ("upper", "both"):
+        d["hi"] = [[l[0] + Fr(g.randint(1, 6), 2)] for l in lo]
+    return d
+
+
 def gen_pipe(g, pipe):
+    if pipe == "trunc":
+        return gen_trunc(g)
     R = g.randint(1, 2); D = g.randint(1, 3)
     d = dict(scn="pipe", pipe=pipe, R=R, D=D)
     B, dv = gen_B(g, R, D)
@@ -113,6 +129,7 @@ def gen_descs(g, tier):
     for pipe in PIPES:
         for _ in range(2 if q else 25):
             out.append(gen_pipe(g, pipe))
+    out += [gen_trunc(g, mode) for mode in ("lower", "upper", "both")]
     for kind in OBJS:
         for _ in range(1 if q else 10):
             out.append(gen_obj(g, kind))
@@ -150,7 +167,8 @@ def theta_of(d):
              "joint": ["B", "mu", "M", "b", "By", "xs", "ys"], "post": ["B", "mu", "M", "b", "By", "xs", "ys"],
              "lik": ["B", "mu", "M", "b", "By", "xs", "ys"], "info": ["B", "mu", "M", "b", "By"],
              "logcond_y": ["B", "mu", "M", "b", "By", "ys"],
-             "moments": ["B", "mu", "A", "a", "Bm", "bv", "Cm", "cv", "Dm", "dvv"]}[d["pipe"]]
+             "moments": ["B", "mu", "A", "a", "Bm", "bv", "Cm", "cv", "Dm", "dvv"],
+             "trunc": ["lam", "nu", "lb"] + [n for n in ("lo", "hi") if n in d]}[d["pipe"]]
     return names
 
 
@@ -159,6 +177,15 @@ def make_fn(d):
     I = gtlib.impl(); jnp = I["jnp"]; jax = I["jax"]
     F, Ms, P, Cn = I["factor"], I["measure"], I["pdf"], I["conditional"]
     pipe = d["pipe"]; D = d["D"]
+    if pipe == "trunc":
+        from gaussian_toolbox.experimental import truncated_measure as tmod
+        def cat(*xs):
+            return jnp.concatenate([jnp.ravel(x) for x in xs])
+        def f(t):
+            u = Ms.GaussianMeasure(Lambda=t["lam"], nu=t["nu"], ln_beta=t["lb"])
+            tm = tmod.TruncatedGaussianMeasure(measure=u, lower_limit=t.get("lo"), upper_limit=t.get("hi"))
+            return cat(tm.integrate("1"), tm.integrate("x"), tm.integrate("x**2"), tm.integrate("x**k", k=3))
+        return f
     dv = jarr(d["dv"])
     def spd(B, dvv):
         return jnp.einsum("rik,rjk->rij", B, B) + dvv[:, :, None] * jnp.eye(B.shape[-1])[None]
@@ -225,6 +252,10 @@ def make_fn(d):
 
 
 def coq_pipe(d):
+    if d["pipe"] == "trunc":
+        # the eager values of the truncated integrals are tied to the model by C20 (trunc/TruncGen.v needs the
+        # cdf tables of that check); here only jit / vmap / grad are compared with the eager run
+        return "[:: Zpos xH; Zpos xH; Z0; Zpos xH; Zpos xH]"
     R, D = d["R"], d["D"]
     Sig = [spd_from(d["B"][r], d["dv"][r]) for r in range(R)]
     p = "(@mk_pdf _ LQ false %d %d (lb3 %s) (lb2 %s) None None)" % (R, D, cb3(Sig), cmat(d["mu"]))
@@ -400,7 +431,12 @@ def run_impl(d):
     names = theta_of(d)
     theta = {n: jarr(d[n]) for n in names}
     eager = np.asarray(f(theta), dtype=float)
-    ob.add("eager", eager)
+    if d["pipe"] == "trunc":
+        ob.nat("truncated pipeline", 1)
+        if not np.all(np.isfinite(eager)):
+            fails.append(lin.fail(["C18"], "eager value not finite", "pipeline:trunc"))
+    else:
+        ob.add("eager", eager)
     site = "pipeline:" + d["pipe"]
     # jit: parameters as traced arguments
     try:
@@ -421,7 +457,10 @@ def run_impl(d):
             fails.append(lin.fail(["C18"], "vmap raises %s: %s" % (type(e).__name__, str(e)[:160]), site))
     # reverse-mode gradient of the summed output w.r.t. every continuous parameter vs central differences
     try:
-        s0 = lambda t: jnp.sum(f(t))
+        # weighted sum with constant weights 1/max(1,|eager_i|): every term is O(1), so that the central differences
+        # are not swamped by the rounding of one huge output component
+        wts = jnp.array(1.0 / np.maximum(1.0, np.abs(np.where(np.isfinite(eager), eager, 1.0))))
+        s0 = lambda t: jnp.sum(f(t) * wts)
         gr = jax.grad(s0)(theta)
         s = jax.jit(s0)
         h = 1e-6
